@@ -4,7 +4,7 @@ from __future__ import annotations
 ID = "C11"
 BOUNDS = {
     "quick": "entry points group_value_write, group_value_response, the MCP send_group_value_write tool and RemoteValue*.set; values: (a) every numeric datapoint class with a symbolic int in [-2^33, 2^33] and, for the float-coded classes, a symbolic number of tenths k/10 spanning the declared range +-2 (45 s per class, 40 s per solver query); (b) every enum and dataclass-valued datapoint class with symbolic int fields in [-3, 70000], symbolic bools, every enum member, fractions k/10, optional fields all present or all None; (c) raw values without a DPT: a symbolic int in [-300, 600] and lists/tuples of 1..3 symbolic ints in [-300, 600]; (d) RemoteValueScaling (ranges 0..100, 0..255, 100..0, 255..0, 20..60; int in [-600, 900] and tenths), RemoteValueRaw (payload length 0..4, int in [-2^33, 2^33]), RemoteValueSetpointShift (DPT 6.010, step 0.1/0.5/1, tenths), Switch/Step/UpDown with both invert settings, RemoteValueDptValue1Ucount, RemoteValueSceneNumber, RemoteValueTemp, RemoteValueColorRGB/RGBW/XYY; (e) a finite concrete list of wrong-typed values for every entry point",
-    "thorough": "as quick with 1200 s per class and 400 s per query",
+    "thorough": "as quick with 240 s per class and 120 s per solver query",
 }
 OUTSIDE = "payload objects (DPTArray/DPTBinary) built by the caller and handed to send_raw; string datapoint types (C07/C08 cover their encoders); values beyond the stated integer windows; float-coded cells reported as inconclusive (solver budget)"
 ASSUMPTIONS = [
@@ -36,7 +36,7 @@ def _groups():
 
 def jobs(tier, seed):
     from props.dpt_common import chunks
-    budget = (45, 40) if tier == "quick" else (1200, 400)
+    budget = (45, 40) if tier == "quick" else (240, 120)
     light, heavy, other = _groups()
     out = [dict(name=f"num-{i}", kind="num", classes=ch, budget=budget, cost=len(ch)) for i, ch in enumerate(chunks(light, 8))]
     for members in heavy:
